@@ -155,6 +155,7 @@ func TestC04_StateMachine(t *testing.T) {
 		var model []byte
 		var hist []string
 		sums := 0
+		var held, heldWant [][]byte
 		writesAfterSum := false
 		classes := map[string]bool{}
 		check := func(prefix []byte, spare int) {
@@ -168,8 +169,21 @@ func TestC04_StateMachine(t *testing.T) {
 			if !bytes.Equal(in[:len(prefix)], keep) {
 				t.Fatalf("history %v: Sum modified the caller's prefix bytes", hist)
 			}
-			for i := range out { // the returned slice belongs to the caller: scribbling on it must not affect the hash
-				out[i] ^= 0xA7
+			// the returned slice belongs to the caller. Half of the time it is scribbled on (that must not affect the hash), the
+			// other half it is kept: no later call on the object may change a digest the caller still holds (crypto/hmac and
+			// every P_hash loop keep A(i) from one Sum while asking for the next)
+			if (sums+len(hist))%2 == 0 {
+				for i := range out {
+					out[i] ^= 0xA7
+				}
+			} else {
+				held = append(held, out)
+				heldWant = append(heldWant, want)
+			}
+			for i := range held {
+				if !bytes.Equal(held[i], heldWant[i]) {
+					t.Fatalf("history %v: a digest returned by an earlier Sum (#%d) changed under a later call: now %x, was %x", hist, i, held[i], heldWant[i])
+				}
 			}
 			sums++
 		}
@@ -265,6 +279,28 @@ func TestC04_HMAC_PBKDF2(t *testing.T) {
 			mac.Write(m[cut:])
 			if g, w := mac.Sum(nil), rsm3.HMAC(key, m); !bytes.Equal(g, w) {
 				t.Fatalf("HMAC-SM3 object reused through Reset, message %d (%d bytes): got %x want %x", round, len(m), g, w)
+			}
+		}
+		// P_SM3 (the TLS PRF's P_hash) written the usual way over ONE crypto/hmac object: A(i) is held from one Sum(nil)
+		// while the next Sum(nil) produces the output block
+		{
+			seed := msg
+			a := seed
+			var gotP, wantP []byte
+			wa := seed
+			for blk := 0; blk < 3; blk++ {
+				mac.Reset()
+				mac.Write(a)
+				a = mac.Sum(nil)
+				mac.Reset()
+				mac.Write(a)
+				mac.Write(seed)
+				gotP = append(gotP, mac.Sum(nil)...)
+				wa = rsm3.HMAC(key, wa)
+				wantP = append(wantP, rsm3.HMAC(key, append(append([]byte{}, wa...), seed...))...)
+			}
+			if !bytes.Equal(gotP, wantP) {
+				t.Fatalf("P_SM3 over one crypto/hmac object: got %x want %x", gotP, wantP)
 			}
 		}
 		iter := rapid.IntRange(1, 12).Draw(t, "iter")
